@@ -309,7 +309,7 @@ func simpleTypes(c *vkit.Collector, rng *vkit.Rng, budget int) {
 		}
 		// Rect
 		{
-			v := cg.AnyRect(rng)
+			v := cg.ValidRect(rng)
 			b, err := cg.Enc(func(w *bytes.Buffer) error { return v.Encode(w) })
 			var q s2.Rect
 			derr := q.Decode(bytes.NewReader(b))
@@ -320,6 +320,39 @@ func simpleTypes(c *vkit.Collector, rng *vkit.Rng, budget int) {
 			}
 			c.Check("encode_rect "+cg.RectT(v), vkit.App("bytes_eqb", vkit.App("encode_rect", cg.InZ(cg.RectT(v))), cg.InZ(cg.BytesT(b))))
 			c.Check("decode_rect "+cg.RectT(v), vkit.App("result_eqb rect_eqb", vkit.App("decode_rect", cg.InZ(cg.BytesT(b))), vkit.App("Ok", cg.InZ(cg.RectT(q)))))
+		}
+		// informational: values outside the types' validity (arbitrary Rect, loop with an arbitrary bound):
+		// Decode(Encode(v)) is an error or the identical value, never a different value
+		{
+			v := cg.AnyRect(rng)
+			b, _ := cg.Enc(func(w *bytes.Buffer) error { return v.Encode(w) })
+			var q s2.Rect
+			derr := q.Decode(bytes.NewReader(b))
+			c.Class(fmt.Sprintf("rect(any):valid=%v", v.IsValid()))
+			if derr == nil && !rectEq(v, q) {
+				violate(c, "Rect.decodesDifferent", "an arbitrary Rect decodes to a different value", map[string]interface{}{"term": cg.RectT(v)})
+			}
+			if derr == nil && !v.IsValid() {
+				violate(c, "Rect.invalidAccepted", "Rect.Decode accepts an invalid rectangle", map[string]interface{}{"term": cg.RectT(v), "bytes": fmt.Sprintf("%x", b)})
+			}
+			if derr != nil && v.IsValid() {
+				violate(c, "Rect.roundtrip", "a valid Rect does not decode: "+derr.Error(), map[string]interface{}{"term": cg.RectT(v)})
+			}
+			c.Check("decode_rect(any) "+cg.RectT(v), vkit.App("Z.eqb", vkit.App("result_class", vkit.App("decode_rect", cg.InZ(cg.BytesT(b)))), vkit.Z(map[bool]int64{true: 1, false: 0}[derr != nil])))
+			vs := []s2.Point{cg.FinitePoint(rng), cg.FinitePoint(rng), cg.FinitePoint(rng)}
+			l := s2.VerifC09LoopRaw(vs, rng.Bool(), 1, v)
+			lb, _ := cg.Enc(func(w *bytes.Buffer) error { return l.Encode(w) })
+			ql := new(s2.Loop)
+			lerr := ql.Decode(bytes.NewReader(lb))
+			c.Class(fmt.Sprintf("loop(any bound):valid=%v", v.IsValid()))
+			if lerr == nil {
+				if ok, what := loopFieldsEq(l, ql); !ok {
+					violate(c, "Loop.decodesDifferent", "a loop with an arbitrary bound decodes to a different value in "+what, map[string]interface{}{"bytes": fmt.Sprintf("%x", lb)})
+				}
+			}
+			if (lerr == nil) != v.IsValid() {
+				violate(c, "Loop.boundValidity", "Loop.Decode accepts the loop iff its stored bound is a valid Rect", map[string]interface{}{"bytes": fmt.Sprintf("%x", lb), "err": fmt.Sprint(lerr)})
+			}
 		}
 		// CellID and Cell
 		{
@@ -604,7 +637,7 @@ func latticeSweep(c *vkit.Collector, rng *vkit.Rng, budget int) {
 			j := rng.Intn(len(vs) + 1)
 			vs = append(vs[:j], append([]s2.Point{cg.LatticePoint(rng, face, level, rng.Intn(3))}, vs[j:]...)...)
 		}
-		p := s2.VerifC09PolygonRaw([]*s2.Loop{cg.RawLoop(rng, vs)}, false, cg.AnyRect(rng))
+		p := s2.VerifC09PolygonRaw([]*s2.Loop{cg.RawLoop(rng, vs)}, false, cg.ValidRect(rng))
 		check(p, "polygon:centres+lattice-point", r%4 == 0)
 	}
 }
